@@ -43,6 +43,21 @@ pub fn dispatch(k: &str, t: &[&str]) -> Option<String> {
             let pm = PartitionMetadata { id: 0, tablename: "t".to_string(), offset: 0, len: 1, subpartitions, subpartitions_by_last_column: by_last };
             match pm.subpartition_key(&name) { Some(k) => Some(format!("some {}", hex(k.as_bytes()))), None => Some("none".to_string()) }
         }
+        "subpartition_loaded" => {
+            let lasts: Vec<String> = t[0].split(',').map(|h| unsafe { String::from_utf8_unchecked(unhex(h)) }).collect();
+            let name = unsafe { String::from_utf8_unchecked(unhex(t[1])) };
+            let mut subpartitions = vec![];
+            let mut by_last = BTreeMap::new();
+            for (k, last) in lasts.iter().enumerate() {
+                by_last.insert(last.clone(), k);
+                subpartitions.push(SubpartitionMetadata { size_bytes: 1, subpartition_key: format!("key{}", k), last_column: last.clone(), loaded: Arc::new(AtomicBool::new(k % 2 == 1)) });
+            }
+            let pm = PartitionMetadata { id: 0, tablename: "t".to_string(), offset: 0, len: 1, subpartitions, subpartitions_by_last_column: by_last };
+            if t[2] == "1" { pm.mark_subpartition_as_loaded(&name); }
+            let r = pm.subpartition_has_been_loaded(&name);
+            let flags: String = pm.subpartitions.iter().map(|s| if s.loaded.load(std::sync::atomic::Ordering::SeqCst) { '1' } else { '0' }).collect();
+            Some(format!("{} {}", r, flags))
+        }
         _ => None,
     }
 }
